@@ -503,3 +503,17 @@ Proof.
     rewrite G in G1. injection G1 as <-.
     eapply Hlist; [reflexivity|exact H|reflexivity].
 Qed.
+
+(* ---------- decidable sufficient conditions (for the examples) ---------- *)
+Definition no_pending_b (h : heap) : bool := forallb (fun n => negb (pending n)) h.
+Lemma no_pending_b_ok h : no_pending_b h = true -> NoPending h.
+Proof.
+  intros H id n G. unfold no_pending_b in H. rewrite forallb_forall in H.
+  specialize (H n (nthz_in _ _ _ G)). destruct (pending n); [discriminate|reflexivity].
+Qed.
+Definition piles_selectable_b (h : heap) : bool := forallb (fun n => match nk n with KPile => n_selc n | _ => true end) h.
+Lemma piles_selectable_b_ok h : piles_selectable_b h = true -> PileCacheOK h.
+Proof.
+  intros H id n G K S. unfold piles_selectable_b in H. rewrite forallb_forall in H.
+  specialize (H n (nthz_in _ _ _ G)). rewrite K in H. congruence.
+Qed.
